@@ -6,6 +6,7 @@ internal, v >= 0 -> (max(0, lb), min(v, ub));  internal, v < 0 -> (max(v, lb), m
 import z3
 import cobra  # noqa
 from .common import *  # noqa
+from . import c15_dictlist  # noqa  (DictList contracts used at call sites)
 from . import c01_lp as C1
 from . import c04_status as C4
 from . import c05_fva as C5
